@@ -101,7 +101,7 @@ fn one(run: u64, stream: u64, secs: i64) -> (Vec<Value>, u64, u64, u64, u64) {
                                         if rng.gen_bool(0.5) {
                                             *replays += 1;
                                             let due = sim.now + k;
-                                            sim.inject_later((info.to - 1) as usize, info.src, d.bytes.clone(), due);
+                                            sim.inject_copy((info.to - 1) as usize, info.src, &d, due);
                                         }
                                     }
                                 }
@@ -116,7 +116,7 @@ fn one(run: u64, stream: u64, secs: i64) -> (Vec<Value>, u64, u64, u64, u64) {
     sim.faults.p_delay = 0.15;
     sim.faults.max_delay = 3;
     let mut fno = 0u8;
-    for _ in 0..secs {
+    for t_rel in 0..secs {
         sim.now += 1;
         MockTimeSource::set_time(sim.now);
         for i in 0..n {
@@ -130,6 +130,18 @@ fn one(run: u64, stream: u64, secs: i64) -> (Vec<Value>, u64, u64, u64, u64) {
             note_sent(&mut dirs, &r.sent);
         }
         handle_deliveries(&mut sim, &mut dirs, &mut rng, &mut replays);
+        // in every second run an outsider replays a captured handshake ping from its original source now and then: the
+        // receiver then holds a (doomed) pending handshake next to the established peer entry of that address - the
+        // window of the established connection must go on ticking
+        if run % 2 == 1 && (t_rel == 8 || t_rel % 37 == 20) {
+            let pings: Vec<Dgram> = sim.wire.iter().filter(|d| d.bytes.first() == Some(&0xff) && d.bytes.get(12) == Some(&1)).cloned().collect();
+            for d in pings.iter().take(4) {
+                if let Some(to) = sim.idx_of(&d.to) {
+                    sim.inject_later(to, addr_of(d.from), d.bytes.clone(), sim.now);
+                }
+            }
+            handle_deliveries(&mut sim, &mut dirs, &mut rng, &mut replays);
+        }
         for _ in 0..rng.gen_range(0..4) {
             let i = rng.gen_range(0..n);
             fno = fno.wrapping_add(1);
